@@ -106,7 +106,7 @@ func runC19(p *Prog, r *Report) {
 				return true
 			}
 			site := fi.Name() + "/RawLines{Lines}"
-			switch fi.Name() {
+			switch p.anchorFor(fi, []string{"comments.parseRawLines", "cli.parseGen"}) {
 			case "comments.parseRawLines":
 				if c := callTo(info, v, modPath+"/config/parse", "", "SettingLines"); c != nil && isParamIdent(info, fi, c.Args[0], 1) {
 					r.OK(site, p.PosStr(cl.Pos()), "parse.SettingLines(comment)")
@@ -211,25 +211,31 @@ func runC19(p *Prog, r *Report) {
 		site := s.fn + "/apply loop"
 		ok := false
 		n := 0
-		ast.Inspect(fi.Decl, func(nn ast.Node) bool {
-			rs, isR := nn.(*ast.RangeStmt)
-			if !isR || !isFieldSel(info, rs.X, modPath+"/config", "RawLines", "Lines") {
-				return true
-			}
-			n++
-			v, isID := rs.Value.(*ast.Ident)
-			if !isID {
-				return true
-			}
-			calls := findCalls(info, rs.Body, modPath+"/config", "", s.callee)
-			if len(calls) == 1 {
-				last := calls[0].Args[len(calls[0].Args)-1]
-				if id, isID := ast.Unparen(last).(*ast.Ident); isID && info.ObjectOf(id) == info.ObjectOf(v) {
-					ok = true
+		var decls []ast.Node
+		for _, rf := range p.Region(s.fn) {
+			decls = append(decls, rf.Decl)
+		}
+		for _, d := range decls {
+			ast.Inspect(d, func(nn ast.Node) bool {
+				rs, isR := nn.(*ast.RangeStmt)
+				if !isR || !isFieldSel(info, rs.X, modPath+"/config", "RawLines", "Lines") {
+					return true
 				}
-			}
-			return true
-		})
+				n++
+				v, isID := rs.Value.(*ast.Ident)
+				if !isID {
+					return true
+				}
+				calls := findCalls(info, rs.Body, modPath+"/config", "", s.callee)
+				if len(calls) == 1 {
+					last := calls[0].Args[len(calls[0].Args)-1]
+					if id, isID := ast.Unparen(last).(*ast.Ident); isID && info.ObjectOf(id) == info.ObjectOf(v) {
+						ok = true
+					}
+				}
+				return true
+			})
+		}
 		if ok && n == 1 {
 			r.OK(site, p.PosStr(fi.Decl.Pos()), "for _, value := range lines.Lines { "+s.callee+"(…, value) }")
 		} else {
